@@ -615,4 +615,310 @@ Proof.
       intros _. exists phi. split; [apply (den_extends s s3 _ _ B X03 D) | exact Dres].
 Qed.
 
+(** ** [apply_bin] *)
+
+Lemma apply_bin_S : forall n s c op f g,
+  apply_bin gt C cget cadd (S n) s c op f g =
+  match terminal_bin gt s op f g with
+  | TFail => None
+  | TDone h => Some (s, c, h)
+  | TNot r => apply_not C cget cadd (S n) s c r
+  | TBin o a b =>
+    match cget c (op_code o) [a; b] with
+    | Some h => Some (s, c, h)
+    | None =>
+      match inner s f, inner s g with
+      | Some fnode, Some gnode =>
+        let lvl := Nat.min (nstored fnode) (nstored gnode) in
+        match cof2 f fnode lvl, cof2 g gnode lvl with
+        | Some (ft, fe), Some (gt', ge) =>
+          match apply_bin gt C cget cadd n s c op ft gt' with
+          | None => None
+          | Some (s1, c1, t) =>
+            match apply_bin gt C cget cadd n s1 c1 op fe ge with
+            | None => None
+            | Some (s2, c2, e) =>
+              let '(s3, h) := mk_node s2 lvl [E t; E e] in
+              Some (s3, cadd c2 (op_code o) [a; b] (eref h), eref h)
+            end
+          end
+        | _, _ => None
+        end
+      | _, _ => None
+      end
+    end
+  end.
+Proof. reflexivity. Qed.
+
+Theorem apply_bin_ok : forall op fuel s c f g phi psi,
+  BddOK s -> CacheOK s c -> Den s f phi -> Den s g psi ->
+  nlevels s - Nat.min (rlevel s f) (rlevel s g) < fuel ->
+  result_ok s c (apply_bin gt C cget cadd fuel s c op f g)
+            (fun c0 => eval_bop op (phi c0) (psi c0)).
+Proof.
+  intros op. induction fuel as [|n IH]; intros s c f g phi psi B O Df Dg Hfuel; [lia|].
+  pose proof (bo_wf s B) as H.
+  rewrite apply_bin_S.
+  pose proof (terminal_bin_sound gt s op f g phi psi B Df Dg) as T.
+  destruct (terminal_bin gt s op f g) as [r|r|o a b|] eqn:Etb; [| | |contradiction].
+  - apply result_ok_here; auto.
+  - destruct T as [Hr [rho [Dr Hrho]]].
+    assert (Hfr : nlevels s - rlevel s r < S n) by (destruct Hr as [->| ->]; lia).
+    apply (result_ok_ext s c _ (fun c0 => negb (rho c0))).
+    + apply (apply_not_ok (S n) s c r rho B O Dr Hfr).
+    + intros c0 Hc. symmetry. apply Hrho. exact Hc.
+  - destruct T as [-> [[idf ->] [[idg ->] Hab]]].
+    destruct (proj1 Df) as [fnd Ef]. destruct (proj1 Dg) as [gnd Eg].
+    rewrite (rlevel_node s idf fnd Ef), (rlevel_node s idg gnd Eg) in Hfuel.
+    pose proof (wf_level s H idf fnd Ef) as Hlf. pose proof (wf_level s H idg gnd Eg) as Hlg.
+    destruct (cget c (op_code op) [a; b]) as [h|] eqn:Ec.
+    + (* cache hit *)
+      destruct (O _ _ _ Ec op eq_refl) as [pa [pb [Da [Db Dh]]]].
+      apply result_ok_here; auto. apply (den_ext s h _ _ Dh). intros c0 Hc.
+      destruct Hab as [[-> ->]|[-> [-> Hcomm]]].
+      * rewrite (den_unique s _ pa phi Da Df c0 Hc), (den_unique s _ pb psi Db Dg c0 Hc). reflexivity.
+      * rewrite (den_unique s _ pa psi Da Dg c0 Hc), (den_unique s _ pb phi Db Df c0 Hc). apply Hcomm.
+    + simpl inner. rewrite Ef, Eg.
+      rewrite (wf_stored s H idf fnd Ef), (wf_stored s H idg gnd Eg).
+      set (lvl := Nat.min (nlevel fnd) (nlevel gnd)) in *. cbv zeta.
+      destruct (cof2_ok s idf fnd phi lvl B Df Ef ltac:(lia)) as [ft [fe [Ecf [Dft [Dfe [Lft Lfe]]]]]].
+      destruct (cof2_ok s idg gnd psi lvl B Dg Eg ltac:(lia)) as [gt' [ge [Ecg [Dgt [Dge [Lgt Lge]]]]]].
+      rewrite Ecf, Ecg.
+      assert (Hlvl : lvl < nlevels s) by lia.
+      destruct (IH s c ft gt' _ _ B O Dft Dgt ltac:(lia)) as [s1 [c1 [t [E1 [B1 [X1 [O1 D1]]]]]]].
+      rewrite E1.
+      assert (Dfe1 : Den s1 fe (cofn phi lvl 1)) by (apply (den_extends s s1 _ _ B X1 Dfe)).
+      assert (Dge1 : Den s1 ge (cofn psi lvl 1)) by (apply (den_extends s s1 _ _ B X1 Dge)).
+      assert (Hf1 : nlevels s1 - Nat.min (rlevel s1 fe) (rlevel s1 ge) < n).
+      { rewrite (ext_nlevels _ _ X1), (ext_rlevel _ _ _ X1 (proj1 Dfe)), (ext_rlevel _ _ _ X1 (proj1 Dge)). lia. }
+      destruct (IH s1 c1 fe ge _ _ B1 O1 Dfe1 Dge1 Hf1) as [s2 [c2 [e [E2 [B2 [X2 [O2 D2]]]]]]].
+      rewrite E2.
+      destruct (mk_node s2 lvl [Build.E t; Build.E e]) as [s3 h] eqn:Em.
+      assert (D1' : Den s2 t (fun c0 => eval_bop op (cofn phi lvl 0 c0) (cofn psi lvl 0 c0)))
+        by (apply (den_extends s1 s2 _ _ B1 X2 D1)).
+      assert (Ip : indep phi (nlevel fnd))
+        by (rewrite <- (rlevel_node s idf fnd Ef); apply (den_indep s _ phi H Df)).
+      assert (Iq : indep psi (nlevel gnd))
+        by (rewrite <- (rlevel_node s idg gnd Eg); apply (den_indep s _ psi H Dg)).
+      assert (II : forall i, i < 2 ->
+                indep (fun c0 => eval_bop op (cofn phi lvl i c0) (cofn psi lvl i c0)) (S lvl)).
+      { intros i Hi x y Hx Hy Exy. f_equal.
+        - apply (indep_cofn phi _ lvl i Ip ltac:(lia) Hi); auto.
+        - apply (indep_cofn psi _ lvl i Iq ltac:(lia) Hi); auto. }
+      assert (Hl2 : lvl < nlevels s2)
+        by (rewrite (ext_nlevels _ _ X2), (ext_nlevels _ _ X1); exact Hlvl).
+      destruct (node_step s2 lvl t e _ _ s3 h B2 Hl2 D1' D2 (II 0 ltac:(lia)) (II 1 ltac:(lia)) Em)
+        as [B3 [X3 Dh]].
+      assert (X03 : extends s s3) by (eapply extends_trans; [|exact X3]; eapply extends_trans; eauto).
+      assert (Dres : Den s3 (eref h) (fun c0 => eval_bop op (phi c0) (psi c0))).
+      { apply (den_ext _ _ _ _ Dh). intros c0 Hc.
+        rewrite (shannon_pick c0 lvl
+                   (fun i => eval_bop op (cofn phi lvl i c0) (cofn psi lvl i c0)) Hc).
+        rewrite (den_upd_self s _ phi c0 lvl H Df Hc), (den_upd_self s _ psi c0 lvl H Dg Hc).
+        reflexivity. }
+      exists s3, (cadd c2 (op_code op) [a; b] (eref h)), (eref h).
+      split; [reflexivity|]. split; [exact B3|]. split; [exact X03|]. split; [|exact Dres].
+      apply cacheok_add; [apply (cacheok_extends s2 s3 c2 B2 X3 O2)|].
+      intros o Ho. apply op_code_inj in Ho. subst o.
+      pose proof (den_extends s s3 _ _ B X03 Df) as Df3.
+      pose proof (den_extends s s3 _ _ B X03 Dg) as Dg3.
+      destruct Hab as [[-> ->]|[-> [-> Hcomm]]].
+      * exists phi, psi. auto.
+      * exists psi, phi. split; [exact Dg3|]. split; [exact Df3|].
+        apply (den_ext _ _ _ _ Dres). intros c0 _. apply Hcomm.
+Qed.
+
+(** ** [apply_ite] *)
+
+Lemma apply_ite_S : forall n s c f g h,
+  apply_ite gt C cget cadd (S n) s c f g h =
+    if ref_eqb g h then Some (s, c, g)
+    else if ref_eqb f g then apply_bin gt C cget cadd (S n) s c OOr f h
+    else if ref_eqb f h then apply_bin gt C cget cadd (S n) s c OAnd f g
+    else
+      match view s f with
+      | None => None
+      | Some (VT b) => Some (s, c, if b then g else h)
+      | Some VI =>
+        match view s g, view s h with
+        | Some (VT true), Some VI => apply_bin gt C cget cadd (S n) s c OOr f h
+        | Some (VT false), Some VI => apply_bin gt C cget cadd (S n) s c OImpStrict f h
+        | Some VI, Some (VT true) => apply_bin gt C cget cadd (S n) s c OImp f g
+        | Some VI, Some (VT false) => apply_bin gt C cget cadd (S n) s c OAnd f g
+        | Some (VT false), Some (VT _) => apply_not C cget cadd (S n) s c f
+        | Some (VT true), Some (VT _) => Some (s, c, f)
+        | Some VI, Some VI =>
+          match cget c code_ite [f; g; h] with
+          | Some r => Some (s, c, r)
+          | None =>
+            match inner s f, inner s g, inner s h with
+            | Some fnode, Some gnode, Some hnode =>
+              let lvl := Nat.min (Nat.min (nstored fnode) (nstored gnode)) (nstored hnode) in
+              match cof2 f fnode lvl, cof2 g gnode lvl, cof2 h hnode lvl with
+              | Some (ft, fe), Some (gt', ge), Some (ht, he) =>
+                match apply_ite gt C cget cadd n s c ft gt' ht with
+                | None => None
+                | Some (s1, c1, t) =>
+                  match apply_ite gt C cget cadd n s1 c1 fe ge he with
+                  | None => None
+                  | Some (s2, c2, e) =>
+                    let '(s3, r) := mk_node s2 lvl [E t; E e] in
+                    Some (s3, cadd c2 code_ite [f; g; h] (eref r), eref r)
+                  end
+                end
+              | _, _, _ => None
+              end
+            | _, _, _ => None
+            end
+          end
+        | _, _ => None
+        end
+      end.
+Proof. reflexivity. Qed.
+
+Local Ltac pw3 phi psi theta :=
+  let c0 := fresh "c0" in let Hc := fresh "Hc" in
+  intros c0 Hc; cbv beta;
+  repeat match goal with
+         | Hx : forall c, bchoice c -> _ = _ |- _ => pose proof (Hx c0 Hc); clear Hx
+         end;
+  destruct (phi c0); destruct (psi c0); destruct (theta c0); simpl in *; congruence.
+
+Theorem apply_ite_ok : forall fuel s c f g h phi psi theta,
+  BddOK s -> CacheOK s c -> Den s f phi -> Den s g psi -> Den s h theta ->
+  nlevels s - Nat.min (Nat.min (rlevel s f) (rlevel s g)) (rlevel s h) < fuel ->
+  result_ok s c (apply_ite gt C cget cadd fuel s c f g h)
+            (fun c0 => if phi c0 then psi c0 else theta c0).
+Proof.
+  induction fuel as [|n IH]; intros s c f g h phi psi theta B O Df Dg Dh Hfuel; [lia|].
+  pose proof (bo_wf s B) as H.
+  rewrite apply_ite_S.
+  destruct (ref_eqb g h) eqn:Egh.
+  { apply ref_eqb_true in Egh. subst h.
+    pose proof (den_unique s g psi theta Dg Dh) as U.
+    apply result_ok_here; auto. apply (den_ext s g psi); [exact Dg|]. pw3 phi psi theta. }
+  destruct (ref_eqb f g) eqn:Efg.
+  { apply ref_eqb_true in Efg. subst g.
+    pose proof (den_unique s f phi psi Df Dg) as U.
+    apply (result_ok_ext s c _ (fun c0 => eval_bop OOr (phi c0) (theta c0))).
+    - apply (apply_bin_ok OOr (S n) s c f h phi theta B O Df Dh). lia.
+    - pw3 phi psi theta. }
+  destruct (ref_eqb f h) eqn:Efh.
+  { apply ref_eqb_true in Efh. subst h.
+    pose proof (den_unique s f phi theta Df Dh) as U.
+    apply (result_ok_ext s c _ (fun c0 => eval_bop OAnd (phi c0) (psi c0))).
+    - apply (apply_bin_ok OAnd (S n) s c f g phi psi B O Df Dg). lia.
+    - pw3 phi psi theta. }
+  destruct (view_total s f B (proj1 Df)) as [vf Vf].
+  destruct (view_total s g B (proj1 Dg)) as [vg Vg].
+  destruct (view_total s h B (proj1 Dh)) as [vh Vh].
+  rewrite Vf. destruct vf as [|bf].
+  2:{ pose proof (view_den_T s f bf phi Df Vf) as U.
+      apply result_ok_here; auto. destruct bf.
+      - apply (den_ext s g psi); [exact Dg|]. pw3 phi psi theta.
+      - apply (den_ext s h theta); [exact Dh|]. pw3 phi psi theta. }
+  rewrite Vg, Vh. destruct vg as [|[]], vh as [|[]].
+  - (* all three inner *)
+    destruct (view_VI s f Vf) as [idf ->]. destruct (view_VI s g Vg) as [idg ->].
+    destruct (view_VI s h Vh) as [idh ->].
+    destruct (proj1 Df) as [fnd Ef]. destruct (proj1 Dg) as [gnd Eg]. destruct (proj1 Dh) as [hnd Eh].
+    rewrite (rlevel_node s idf fnd Ef), (rlevel_node s idg gnd Eg), (rlevel_node s idh hnd Eh) in Hfuel.
+    pose proof (wf_level s H idf fnd Ef) as Hlf. pose proof (wf_level s H idg gnd Eg) as Hlg.
+    pose proof (wf_level s H idh hnd Eh) as Hlh.
+    destruct (cget c code_ite [RN idf; RN idg; RN idh]) as [r|] eqn:Ec.
+    + destruct (O _ _ _ Ec eq_refl) as [pa [pb [pc [Da [Db [Dc Dr]]]]]].
+      apply result_ok_here; auto. apply (den_ext s r _ _ Dr). intros c0 Hc.
+      rewrite (den_unique s _ pa phi Da Df c0 Hc), (den_unique s _ pb psi Db Dg c0 Hc),
+              (den_unique s _ pc theta Dc Dh c0 Hc). reflexivity.
+    + simpl inner. rewrite Ef, Eg, Eh.
+      rewrite (wf_stored s H idf fnd Ef), (wf_stored s H idg gnd Eg), (wf_stored s H idh hnd Eh).
+      set (lvl := Nat.min (Nat.min (nlevel fnd) (nlevel gnd)) (nlevel hnd)) in *. cbv zeta.
+      destruct (cof2_ok s idf fnd phi lvl B Df Ef ltac:(lia)) as [ft [fe [Ecf [Dft [Dfe [Lft Lfe]]]]]].
+      destruct (cof2_ok s idg gnd psi lvl B Dg Eg ltac:(lia)) as [gt' [ge [Ecg [Dgt [Dge [Lgt Lge]]]]]].
+      destruct (cof2_ok s idh hnd theta lvl B Dh Eh ltac:(lia)) as [ht [he [Ech [Dht [Dhe [Lht Lhe]]]]]].
+      rewrite Ecf, Ecg, Ech.
+      assert (Hlvl : lvl < nlevels s) by lia.
+      destruct (IH s c ft gt' ht _ _ _ B O Dft Dgt Dht ltac:(lia)) as [s1 [c1 [t [E1 [B1 [X1 [O1 D1]]]]]]].
+      rewrite E1.
+      assert (Dfe1 : Den s1 fe (cofn phi lvl 1)) by (apply (den_extends s s1 _ _ B X1 Dfe)).
+      assert (Dge1 : Den s1 ge (cofn psi lvl 1)) by (apply (den_extends s s1 _ _ B X1 Dge)).
+      assert (Dhe1 : Den s1 he (cofn theta lvl 1)) by (apply (den_extends s s1 _ _ B X1 Dhe)).
+      assert (Hf1 : nlevels s1 - Nat.min (Nat.min (rlevel s1 fe) (rlevel s1 ge)) (rlevel s1 he) < n).
+      { rewrite (ext_nlevels _ _ X1), (ext_rlevel _ _ _ X1 (proj1 Dfe)),
+                (ext_rlevel _ _ _ X1 (proj1 Dge)), (ext_rlevel _ _ _ X1 (proj1 Dhe)). lia. }
+      destruct (IH s1 c1 fe ge he _ _ _ B1 O1 Dfe1 Dge1 Dhe1 Hf1) as [s2 [c2 [e [E2 [B2 [X2 [O2 D2]]]]]]].
+      rewrite E2.
+      destruct (mk_node s2 lvl [Build.E t; Build.E e]) as [s3 r] eqn:Em.
+      assert (D1' : Den s2 t (fun c0 => if cofn phi lvl 0 c0 then cofn psi lvl 0 c0 else cofn theta lvl 0 c0))
+        by (apply (den_extends s1 s2 _ _ B1 X2 D1)).
+      assert (Ip : indep phi (nlevel fnd))
+        by (rewrite <- (rlevel_node s idf fnd Ef); apply (den_indep s _ phi H Df)).
+      assert (Iq : indep psi (nlevel gnd))
+        by (rewrite <- (rlevel_node s idg gnd Eg); apply (den_indep s _ psi H Dg)).
+      assert (Ir : indep theta (nlevel hnd))
+        by (rewrite <- (rlevel_node s idh hnd Eh); apply (den_indep s _ theta H Dh)).
+      assert (II : forall i, i < 2 ->
+                indep (fun c0 => if cofn phi lvl i c0 then cofn psi lvl i c0 else cofn theta lvl i c0) (S lvl)).
+      { intros i Hi x y Hx Hy Exy.
+        rewrite (indep_cofn phi _ lvl i Ip ltac:(lia) Hi x y Hx Hy Exy).
+        rewrite (indep_cofn psi _ lvl i Iq ltac:(lia) Hi x y Hx Hy Exy).
+        rewrite (indep_cofn theta _ lvl i Ir ltac:(lia) Hi x y Hx Hy Exy). reflexivity. }
+      assert (Hl2 : lvl < nlevels s2)
+        by (rewrite (ext_nlevels _ _ X2), (ext_nlevels _ _ X1); exact Hlvl).
+      destruct (node_step s2 lvl t e _ _ s3 r B2 Hl2 D1' D2 (II 0 ltac:(lia)) (II 1 ltac:(lia)) Em)
+        as [B3 [X3 Dr]].
+      assert (X03 : extends s s3) by (eapply extends_trans; [|exact X3]; eapply extends_trans; eauto).
+      assert (Dres : Den s3 (eref r) (fun c0 => if phi c0 then psi c0 else theta c0)).
+      { apply (den_ext _ _ _ _ Dr). intros c0 Hc.
+        rewrite (shannon_pick c0 lvl
+                   (fun i => if cofn phi lvl i c0 then cofn psi lvl i c0 else cofn theta lvl i c0) Hc).
+        rewrite (den_upd_self s _ phi c0 lvl H Df Hc), (den_upd_self s _ psi c0 lvl H Dg Hc),
+                (den_upd_self s _ theta c0 lvl H Dh Hc).
+        reflexivity. }
+      exists s3, (cadd c2 code_ite [RN idf; RN idg; RN idh] (eref r)), (eref r).
+      split; [reflexivity|]. split; [exact B3|]. split; [exact X03|]. split; [|exact Dres].
+      apply cacheok_add; [apply (cacheok_extends s2 s3 c2 B2 X3 O2)|].
+      intros _. exists phi, psi, theta.
+      split; [apply (den_extends s s3 _ _ B X03 Df)|].
+      split; [apply (den_extends s s3 _ _ B X03 Dg)|].
+      split; [apply (den_extends s s3 _ _ B X03 Dh) | exact Dres].
+  - (* g inner, h = true: f -> g *)
+    pose proof (view_den_T s h true theta Dh Vh) as U.
+    apply (result_ok_ext s c _ (fun c0 => eval_bop OImp (phi c0) (psi c0))).
+    + apply (apply_bin_ok OImp (S n) s c f g phi psi B O Df Dg). lia.
+    + pw3 phi psi theta.
+  - (* g inner, h = false: f /\ g *)
+    pose proof (view_den_T s h false theta Dh Vh) as U.
+    apply (result_ok_ext s c _ (fun c0 => eval_bop OAnd (phi c0) (psi c0))).
+    + apply (apply_bin_ok OAnd (S n) s c f g phi psi B O Df Dg). lia.
+    + pw3 phi psi theta.
+  - (* g = true, h inner: f \/ h *)
+    pose proof (view_den_T s g true psi Dg Vg) as U.
+    apply (result_ok_ext s c _ (fun c0 => eval_bop OOr (phi c0) (theta c0))).
+    + apply (apply_bin_ok OOr (S n) s c f h phi theta B O Df Dh). lia.
+    + pw3 phi psi theta.
+  - (* g = true, h = true: excluded by g <> h, the code returns f *)
+    pose proof (view_den_T s g true psi Dg Vg) as U. pose proof (view_den_T s h true theta Dh Vh) as U'.
+    exfalso. destruct (view_VT s g true Vg) as [tg [-> Tg]]. destruct (view_VT s h true Vh) as [th [-> Th]].
+    rewrite (term_val_inj s tg th _ H Tg Th) in Egh.
+    assert (X : ref_eqb (RT th) (RT th) = true) by (apply ref_eqb_eq; reflexivity). congruence.
+  - (* g = true, h = false: f *)
+    pose proof (view_den_T s g true psi Dg Vg) as U. pose proof (view_den_T s h false theta Dh Vh) as U'.
+    apply result_ok_here; auto. apply (den_ext s f phi); [exact Df|]. pw3 phi psi theta.
+  - (* g = false, h inner: ~f /\ h *)
+    pose proof (view_den_T s g false psi Dg Vg) as U.
+    apply (result_ok_ext s c _ (fun c0 => eval_bop OImpStrict (phi c0) (theta c0))).
+    + apply (apply_bin_ok OImpStrict (S n) s c f h phi theta B O Df Dh). lia.
+    + pw3 phi psi theta.
+  - (* g = false, h = true: ~f *)
+    pose proof (view_den_T s g false psi Dg Vg) as U. pose proof (view_den_T s h true theta Dh Vh) as U'.
+    apply (result_ok_ext s c _ (fun c0 => negb (phi c0))).
+    + apply (apply_not_ok (S n) s c f phi B O Df). lia.
+    + pw3 phi psi theta.
+  - (* g = false, h = false: excluded by g <> h *)
+    exfalso. destruct (view_VT s g false Vg) as [tg [-> Tg]]. destruct (view_VT s h false Vh) as [th [-> Th]].
+    rewrite (term_val_inj s tg th _ H Tg Th) in Egh.
+    assert (X : ref_eqb (RT th) (RT th) = true) by (apply ref_eqb_eq; reflexivity). congruence.
+Qed.
+
 End CacheSec.
